@@ -1159,13 +1159,13 @@ func indepScenario(c *core.Ctx, stream string, idx int) {
 func Run(c *core.Ctx) {
 	c.Note("rule", "random stream: per index a generated program (3..7 units = nests of 1..3 `mutex` blocks over names {m1,m2,m3}; a new name is always ranked above every name held, a held name may be re-entered; one exit kind per unit out of {normal, raise caught outside the blocks left, raise escaping the thread, return, break, continue}, fired at a chosen iteration from nesting level exitLevel through to the handler placed outside level catchLevel; optional helper function called inside a block that enters held or higher names and leaves by normal/return/raise; counters c1..c3 incremented only inside blocks of their name, half of them as `c := c + v.one()` with a yielding Go function) run by 2..16 threads = sinks on 2..8 workers (event per thread, some with the blocks inline in the sink body) plus direct Eval goroutines with ids from NewThreadID(); exit stream: all 6 exit kinds x depth 1..3, thread B enters every name thread A left; indep stream: all ordered pairs of different names x sink/direct threads, A holds one name until B was seen inside the other. One evaluation = one thread program executed. Non-trivial = a random scenario (distinct program text and thread layout) in which the monitor saw at least one attempt on a name held by another thread; a distinct (exit kind, depth, catch level, names) case in which the later entrant got in; an independence case with the overlap observed. Excluded by generation: thread id 0, programs that can deadlock by themselves (names are taken in one global order), try/except between a break/continue/return and the construct that consumes it, block scopes shared between direct threads (every direct thread evaluates in its own child scope of the global scope).")
 	setup()
-	nExit := c.Pick(72, 1440)
-	nIndep := c.Pick(24, 240)
-	nRand := c.Pick(640, 32000)
+	nExit := c.Pick(216, 1440)
+	nIndep := c.Pick(72, 240)
+	nRand := c.Pick(3200, 32000)
 	if c.Race {
 		nExit = c.Pick(36, 360)
 		nIndep = c.Pick(12, 48)
-		nRand = c.Pick(96, 4800)
+		nRand = c.Pick(480, 4800)
 	}
 	for i := 0; i < nExit; i++ {
 		if c.Mine("exit", i) {
